@@ -70,8 +70,12 @@ spd = 9 * xm / xs
     baz = 6 * xs
     gfoo = 12 * xm
 @end
+@context cu
+    bar = 2 * newu
+@end
 """.strip().splitlines()
 
+REDEF = ("cr", "cs", "cu")
 DEFS = ["newu = 2 * foo = nu", "newv = 5 * xs / xg", "deca- = 10 = D-", "@alias foo = fooz", "neww = 3 * newu", "hexa- = 16"]
 UNITS = ["xm", "xs", "xg", "foo", "bar", "baz", "qux", "spd", "gfoo", "gbar", "gbaz", "kilafoo", "milabaz", "fo", "qx", "foos", "Kfo", "newu", "nu", "newv", "neww", "decaxm", "fooz", "Dfo",
          "hexabar", "kilanewu", "nope", "kilakilafoo"]
@@ -94,6 +98,7 @@ class State:
         self.system = "sysx"
         self.contexts = []  # (name, p)
         self.group_edits = []  # (group, 'add'|'remove', unit)
+        self.redef_seen = False  # a redefining context has been active since the base-units cache was last emptied (not part of the declarative state)
 
     def key(self):
         return (tuple(self.defs), self.system, tuple(self.contexts), tuple(self.group_edits))
@@ -200,7 +205,7 @@ def run_history(ops, lines=LINES, col=None, known=()):
                     d = DEFS[op[2] % len(DEFS)]
                     if d in state.defs:
                         continue
-                    if any(n in ("cr", "cs") for n, _ in state.contexts):
+                    if any(n in REDEF for n, _ in state.contexts):
                         if "answer_depends_on_history:defined_inside_redefining_context" in known:
                             if col is not None:
                                 col.excluded += 1
@@ -213,8 +218,21 @@ def run_history(ops, lines=LINES, col=None, known=()):
                         raise Violation(f"define_refused:{exc_class(r)}", f"define({d!r}) raised {r!r}")
                     state.defs.append(d)
                 elif act == "enable":
-                    subject.enable_contexts(op[2], **({"p": Fraction(op[3])} if op[3] else {}))
+                    s_, r_ = attempt(subject.enable_contexts, op[2], **({"p": Fraction(op[3])} if op[3] else {}))
+                    if s_ == "err":
+                        # context cu redefines bar through 'newu', which only exists after define(0): until then its activation must fail
+                        # and leave no trace (the declarative state is unchanged); any other refusal is a violation
+                        if op[2] == "cu" and DEFS[0] not in state.defs:
+                            if col is not None:
+                                col.count("failed_activation")
+                            changed = True
+                            continue
+                        raise Violation(f"enable_refused:{exc_class(r_)}", f"enable_contexts({op[2]!r}) in state {state.key()} raised {r_!r}")
+                    if op[2] == "cu" and DEFS[0] not in state.defs:
+                        raise Violation("enable_accepted_undefined_reference", f"enable_contexts('cu') succeeded in state {state.key()} although newu is not defined")
                     state.contexts.append((op[2], Fraction(op[3]) if op[3] else None))
+                    if op[2] in REDEF:
+                        state.redef_seen = True
                 elif act == "disable":
                     if not state.contexts:
                         continue
@@ -223,6 +241,7 @@ def run_history(ops, lines=LINES, col=None, known=()):
                 elif act == "system":
                     subject.default_system = op[2]
                     state.system = op[2]
+                    state.redef_seen = any(n in REDEF for n, _ in state.contexts)  # assigning default_system empties the base-units cache
                 elif act == "group":
                     g, what, u = op[2], op[3], op[4]
                     grp = subject.get_group(g)
@@ -279,7 +298,9 @@ def classify(q, state, a, b):
         return "answer_depends_on_history:defined_inside_redefining_context"
     if kind == "compat" and state.defs:
         return "answer_depends_on_history:compat:defined_units_not_listed"
-    if kind in ("base", "base_sys", "to_base", "held", "compact") and any(n in ("cr", "cs") for n, _ in state.contexts):
+    if kind in ("base", "base_sys", "to_base", "held", "compact") and (any(n in REDEF for n, _ in state.contexts) or getattr(state, "redef_seen", False)):
+        # known finding: answers of get_base_units are cached across context stacks, in both directions (cached outside and served inside,
+        # or cached inside a redefining context and served after it has been left)
         return "answer_depends_on_history:base_units_cache_across_contexts"
     if kind in ("base", "to_base", "held", "compact", "format", "to", "convert", "root", "parse_expr") and state.contexts == [] and a[0] == "ok" and b[0] == "ok":
         pass
@@ -320,7 +341,33 @@ def _ops_strategy(units, exprs, contexts, systems, groups):
         st.tuples(st.just("S"), st.just("group"), st.sampled_from([g for g in groups if g != "root"]), st.sampled_from(["add", "remove"]), st.sampled_from(["qux", "spd", "gfoo", "foo"])),
         st.tuples(st.just("S"), st.just("second")),
     )
-    return st.lists(st.one_of(query, query, query, change), min_size=4, max_size=30).map(lambda ops: {"ops": [list(o) for o in ops]})
+    free = st.lists(st.one_of(query, query, query, change), min_size=4, max_size=30)
+    # motif: enter and leave a redefining context (or switch system / edit a group), then ask about units that depend on what was touched and
+    # that this registry has not necessarily been asked about before (fresh cache slots)
+    dep = st.sampled_from([u_ for u_ in units if u_ in ("foo", "bar", "baz", "gfoo", "spd", "kilafoo", "milabaz", "fo", "foos", "Kfo", "gbar", "gbaz")] or units)
+    probe = st.one_of(st.tuples(st.just("Q"), st.just("convert"), x, dep, u), st.tuples(st.just("Q"), st.just("convert"), x, u, dep), st.tuples(st.just("Q"), st.just("root"), dep),
+                      st.tuples(st.just("Q"), st.just("base"), dep), st.tuples(st.just("Q"), st.just("to_base"), x, dep), st.tuples(st.just("Q"), st.just("parse_expr"), st.sampled_from(exprs)),
+                      st.tuples(st.just("Q"), st.just("compat"), dep, st.sampled_from([None] + groups + systems)), st.tuples(st.just("Q"), st.just("format"), x, dep, st.sampled_from(SPECS)))
+    enter = st.tuples(st.just("S"), st.just("enable"), st.sampled_from(["cr", "cs"]), st.just(0))
+    leave = st.just(("S", "disable"))
+    motif = st.tuples(st.lists(st.one_of(query, change), max_size=4), enter, st.lists(st.one_of(probe, query), max_size=3), leave, st.lists(probe, min_size=2, max_size=5),
+                      st.lists(st.one_of(query, query, change), max_size=8)).map(lambda t: list(t[0]) + [t[1]] + list(t[2]) + [t[3]] + list(t[4]) + list(t[5]))
+    # motif: ask for a spelling while its unit / prefix / alias does not exist yet (negative answers must not be remembered), define it, ask again
+    LATE = {0: ["newu", "newus", "kilanewu", "nu", "nus", "Knu"], 1: ["newv", "newvs", "milanewv"], 2: ["decaxm", "Dfo", "decafoos", "Dxm"], 3: ["fooz", "foozs", "kilafooz", "Kfooz"],
+            5: ["hexabar", "hexaxm", "hexafoos"]}
+    @st.composite
+    def late(draw):
+        k = draw(st.sampled_from(sorted(LATE)))
+        sp = draw(st.lists(st.sampled_from(LATE[k]), min_size=1, max_size=3, unique=True))
+        kinds = draw(st.lists(st.sampled_from(["parse_units", "root", "dim", "parse_units_ci"]), min_size=len(sp), max_size=len(sp)))
+        qs = [("Q", kd, x) for kd, x in zip(kinds, sp)] + [("Q", "parse_expr", "3 " + sp[0])]
+        pre = draw(st.lists(st.one_of(query, change), max_size=3))
+        post = draw(st.lists(st.one_of(query, query, change), max_size=5))
+        return list(pre) + qs + [("S", "define", k)] + qs + list(post)
+    # motif: an activation that fails (cu needs newu), the missing unit is defined, the same activation is repeated and probed
+    retry = st.tuples(st.lists(st.one_of(query, change), max_size=3), st.lists(probe, max_size=2), st.lists(probe, min_size=2, max_size=5), st.lists(st.one_of(query, query, change), max_size=5)).map(
+        lambda t: list(t[0]) + [("S", "enable", "cu", 0)] + list(t[1]) + [("S", "define", 0), ("S", "enable", "cu", 0)] + list(t[2]) + [("S", "disable")] + list(t[3]))
+    return st.one_of(free, free, motif, late(), retry).map(lambda ops: {"ops": [list(o) for o in ops]})
 
 
 def case_history(case, col=None):
@@ -330,7 +377,7 @@ def case_history(case, col=None):
 
 
 def run_history_task(task, tier, seed, col):
-    strat = _ops_strategy(UNITS + ["foo", "bar", "baz", "gfoo", "kilafoo"], EXPRS, ["ca", "cb", "cr", "cs", "cr", "cs"], ["sysx", "sysy"], ["ga", "gb", "root"])
+    strat = _ops_strategy(UNITS + ["foo", "bar", "baz", "gfoo", "kilafoo"], EXPRS, ["ca", "cb", "cr", "cs", "cr", "cs", "cu"], ["sysx", "sysy"], ["ga", "gb", "root"])
     hyp_search(col, strat, lambda c: case_history(c, col), max_examples=220 if tier == "quick" else 5000, seed=seed * 211 + task["shard"], shrink_budget_s=90)
 
 
